@@ -6,6 +6,9 @@
    stdout: "H <n>" and then one line per op
      <ret>|<slice>|<level>|<size>|<id:height,...>|<level0 ids>/<level1 ids>/...
    (the same text the Go harness prints for the real list).
+   An op prefixed with '~' is UNOBSERVED ("sparse observation" histories): only its return value
+   is printed, as "<ret>|~|<h>" (h = the tower height of an Insert, else empty); the state is not
+   rendered.
    `modelrun skip spec`: the abstract specification (sorted list as multiset) instead of the
    model; heights are ignored; lines are "<ret>|<slice>". *)
 open Zutil
@@ -70,6 +73,17 @@ let parse_op (o : string) =
   | 'A' -> `Op OAsSlice
   | _ -> failwith ("op " ^ o)
 
+(* '~' prefix: unobserved op.  Returns (unobserved?, op text without the prefix) *)
+let unobs (o : string) : bool * string =
+  let o = strip o in
+  if String.length o > 0 && o.[0] = '~' then (true, strip (String.sub o 1 (String.length o - 1))) else (false, o)
+
+(* "<ret>|~|<h>" : h is the tower height an Insert was given *)
+let unobs_line (ret : string) (o : string) : string =
+  let h = if String.length o > 0 && o.[0] = 'I' then
+      (match split_on '@' o with [_; b] -> strip b | _ -> "1") else "" in
+  ret ^ "|~|" ^ h ^ "\n"
+
 let split_history line =
   match words line with
   | [] -> failwith "empty history"
@@ -87,6 +101,7 @@ let run_model () =
       Printf.printf "H %d\n" (List.length ops);
       let s = ref empty in
       List.iter (fun o ->
+        let (u, o) = unobs o in
         match parse_op o with
         | `Batch l ->
           s := from_slice cmp l;
@@ -94,7 +109,8 @@ let run_model () =
         | `Op op ->
           let (s', r) = step cmp !s op in
           s := s';
-          print_string (show_out r ^ "|" ^ show_state s' ^ "\n")) ops
+          if u then print_string (unobs_line (show_out r) o)
+          else print_string (show_out r ^ "|" ^ show_state s' ^ "\n")) ops
     end)
 
 let run_spec () =
@@ -105,6 +121,7 @@ let run_spec () =
       Printf.printf "H %d\n" (List.length ops);
       let l = ref [] in
       List.iter (fun o ->
+        let (u, o) = unobs o in
         match parse_op o with
         | `Batch b ->
           l := List.fold_left (fun acc (v, r) -> fst (ms_step cmp acc (OInsert (v, r)))) [] b;
@@ -112,7 +129,8 @@ let run_spec () =
         | `Op op ->
           let (l', r) = ms_step cmp !l op in
           l := l';
-          print_string (show_out r ^ "|" ^ show_slice l' ^ "\n")) ops
+          if u then print_string (show_out r ^ "|~\n")
+          else print_string (show_out r ^ "|" ^ show_slice l' ^ "\n")) ops
     end)
 
 (* `modelrun skip ptr`: the pointer model (layer B), same output format as the model *)
@@ -133,6 +151,7 @@ let run_ptr () =
       Printf.printf "H %d\n" (List.length ops);
       let s = ref p_empty in
       List.iter (fun o ->
+        let (u, o) = unobs o in
         match parse_op o with
         | `Batch l ->
           let r = List.fold_left (fun acc (v, r) ->
@@ -144,8 +163,10 @@ let run_ptr () =
            | None -> print_string "ptr-model-stuck\n")
         | `Op op ->
           (match p_step cmp !s op with
-           | POk (s', r) -> s := s'; print_string (show_out r ^ "|" ^ show_pstate s' ^ "\n")
-           | PPanic -> print_string ("panic|" ^ show_pstate !s ^ "\n")
+           | POk (s', r) -> s := s';
+             if u then print_string (unobs_line (show_out r) o)
+             else print_string (show_out r ^ "|" ^ show_pstate s' ^ "\n")
+           | PPanic -> if u then print_string (unobs_line "panic" o) else print_string ("panic|" ^ show_pstate !s ^ "\n")
            | PFuel -> print_string "ptr-model-out-of-fuel\n")) ops
     end)
 
